@@ -171,7 +171,8 @@ def subscribed_labels(w):
     for ns in w.server._apps.values():
         for mb in ns._mailboxes.values():
             for h in mb._listeners.keys():
-                out.add(h.label)
+                # (listener keys are connection objects today; anything else is reported as such)
+                out.add(getattr(h, "label", "<listener key that is not a connection>"))
     return out
 
 
